@@ -613,7 +613,7 @@ impl Scenario for Pipeline {
                 ("jet1090::dedup::deduplicate_messages", "real"),
                 ("rs1090 decode_position / Message::from_bytes", "real"),
                 ("jet1090::snapshot::update_snapshot / store_history, filters::Filters::is_in", "real"),
-                ("jet1090::update, table::build_table, web::all, Jet1090 behind Arc<tokio::sync::Mutex>", "real"),
+                ("jet1090::update, table::build_table, web::all (judged), web::icao24 / sensors / track (exercised), Jet1090 behind Arc<tokio::sync::Mutex>", "real"),
                 app::main_loop_component(),
                 ("Source::from_str / Source::serial / sensor::sensors (serials and references per receiver, main.rs:326-333)", "real"),
                 ("TUI loop, expiry sweep, event reader, channel wiring", "stub (closures inlined in main(), re-stated)"),
@@ -995,6 +995,27 @@ pub fn execute(plan: &PipelinePlan, prop: &'static str) -> Outcome<PipelinePlan>
             let bytes = warp::hyper::body::to_bytes(resp.into_body()).await.unwrap();
             exec::log_u64(0x0B00_0000 | n_done as u64);
             sh.borrow_mut().observations.push((n_done, String::from_utf8_lossy(&bytes).to_string()));
+        });
+    }
+    // the other REST handlers share the mutex: exercised (a panic or a lock that is
+    // never released would show), their replies are not judged
+    for (k, &at) in plan.readers.iter().enumerate() {
+        let app = app.clone();
+        let icao = plan.aircraft[k % plan.aircraft.len()].icao;
+        let kind = k % 3;
+        sim.spawn("GET /, /sensors, /track (web::* real)", async move {
+            exec::sleep_until_ns(at.saturating_add(1_000_000)).await;
+            let reply = match kind {
+                0 => crate::web::icao24(&app).await.unwrap(),
+                1 => crate::web::sensors(&app).await.unwrap(),
+                _ => {
+                    let q: crate::web::TrackQuery = serde_json::from_value(serde_json::json!({"icao24": format!("{:06x}", icao), "since": if at % 2 == 0 { serde_json::Value::Null } else { serde_json::json!(exec::now_unix_f64() - 30.0) }})).expect("track query");
+                    crate::web::track(&app, q).await.unwrap()
+                }
+            };
+            let resp = reply.into_response();
+            let bytes = warp::hyper::body::to_bytes(resp.into_body()).await.unwrap();
+            exec::log_u64(0x0C00_0000 | (bytes.len() as u64 & 0xFFFF));
         });
     }
     if !plan.holds.is_empty() {
